@@ -788,3 +788,68 @@ func (x *Exec) detResults(st *State, fn *ssa.Function, args []Val, resT *types.T
 	c.note("read-only callee " + x.p.funcKey(fn) + ": results are a function of the arguments and the heap regions it reads")
 	return pack(resT, out), true
 }
+
+// applyLockSpecs marks every function of the named files for the lock
+// discipline obligations.
+func (p *Program) applyLockSpecs() {
+	for _, ls := range p.lockSpecs {
+		target := filepath.Join(ls.dir, ls.file)
+		for _, k := range sortedKeys(p.byName) {
+			fn := p.byName[k]
+			if fn.Syntax() == nil || p.isGhostFn(fn) {
+				continue
+			}
+			if p.fset.Position(fn.Syntax().Pos()).Filename != target {
+				continue
+			}
+			if deferOnly(fn) || confinedClosure(fn) {
+				continue
+			}
+			touches := false
+			carries := func(t types.Type) bool {
+				pt, ok := t.Underlying().(*types.Pointer)
+				if !ok {
+					return false
+				}
+				st, ok := pt.Elem().Underlying().(*types.Struct)
+				if !ok {
+					return false
+				}
+				for i := 0; i < st.NumFields(); i++ {
+					if n, ok := st.Field(i).Type().(*types.Named); ok && n.Obj().Pkg() != nil && n.Obj().Pkg().Path() == "sync" {
+						return true
+					}
+				}
+				return false
+			}
+			for _, pr := range fn.Params {
+				if carries(pr.Type()) {
+					touches = true
+				}
+			}
+			for _, b := range fn.Blocks {
+				for _, in := range b.Instrs {
+					if fa, ok := in.(*ssa.FieldAddr); ok {
+						if st, ok := fa.X.Type().Underlying().(*types.Pointer).Elem().Underlying().(*types.Struct); ok {
+							for i := 0; i < st.NumFields(); i++ {
+								if n, ok := st.Field(i).Type().(*types.Named); ok && n.Obj().Pkg() != nil && n.Obj().Pkg().Path() == "sync" {
+									touches = true
+								}
+							}
+						}
+					}
+				}
+			}
+			if !touches {
+				continue
+			}
+			fc := p.contracts[k]
+			if fc == nil {
+				fc = &FuncContract{Key: k, File: target, Loops: map[int]*LoopContract{}, Skip: map[string]bool{}, Props: map[string]bool{}}
+				p.contracts[k] = fc
+			}
+			fc.LockProps = append(fc.LockProps, ls.prop)
+			fc.Props[ls.prop] = true
+		}
+	}
+}
